@@ -829,6 +829,7 @@ def _outcome_peek(d):
 
 
 MUTANTS = [
+    Mutant("head-lines-generator-skips-method-validation", P, "        requestLines = []\n        requestLines.append(\n            b\" \".join(\n                [\n                    _ensureValidMethod(self.method),\n                    _ensureValidURI(self.uri),\n                    b\"HTTP/1.1\\r\\n\",\n                ]\n            ),\n        )\n        if not self.persistent:\n            requestLines.append(b\"Connection: close\\r\\n\")\n        if TEorCL is not None:\n            requestLines.append(TEorCL)\n        for name, values in self.headers.getAllRawHeaders():\n            requestLines.extend([name + b\": \" + v + b\"\\r\\n\" for v in values])\n        requestLines.append(b\"\\r\\n\")\n        transport.writeSequence(requestLines)\n", "        transport.writeSequence(list(self._headLines(TEorCL)))\n\n    def _headLines(self, framing):\n        yield b\" \".join([self.method, _ensureValidURI(self.uri), b\"HTTP/1.1\\r\\n\"])\n        if not self.persistent:\n            yield b\"Connection: close\\r\\n\"\n        if framing is not None:\n            yield framing\n        for name, values in self.headers.getAllRawHeaders():\n            for v in values:\n                yield name + b\": \" + v + b\"\\r\\n\"\n        yield b\"\\r\\n\"\n", expect_rule="sink/"),
     Mutant("sync-generation-failure-reopens-the-protocol", P, "        except BaseException:\n            _requestDeferred = fail()\n", "        except BaseException:\n            self._state = \"QUIESCENT\"\n            _requestDeferred = fail()\n",
            expect_rule="failure/leaves-refusing-state"),
     Mutant("sync-generation-failure-bypasses-the-errback", P, "        except BaseException:\n            _requestDeferred = fail()\n",
@@ -869,6 +870,7 @@ MUTANTS = [
     Mutant("empty-header-values-dropped", P, "            requestLines.extend([name + b\": \" + v + b\"\\r\\n\" for v in values])", "            requestLines.extend([name + b\": \" + v + b\"\\r\\n\" for v in values if len(v) > 0])"),
 ]
 SILENT = [
+    Silent("head-lines-from-a-generator-method", P, "        requestLines = []\n        requestLines.append(\n            b\" \".join(\n                [\n                    _ensureValidMethod(self.method),\n                    _ensureValidURI(self.uri),\n                    b\"HTTP/1.1\\r\\n\",\n                ]\n            ),\n        )\n        if not self.persistent:\n            requestLines.append(b\"Connection: close\\r\\n\")\n        if TEorCL is not None:\n            requestLines.append(TEorCL)\n        for name, values in self.headers.getAllRawHeaders():\n            requestLines.extend([name + b\": \" + v + b\"\\r\\n\" for v in values])\n        requestLines.append(b\"\\r\\n\")\n        transport.writeSequence(requestLines)\n", "        transport.writeSequence(list(self._headLines(TEorCL)))\n\n    def _headLines(self, framing):\n        yield b\" \".join([_ensureValidMethod(self.method), _ensureValidURI(self.uri), b\"HTTP/1.1\\r\\n\"])\n        if not self.persistent:\n            yield b\"Connection: close\\r\\n\"\n        if framing is not None:\n            yield framing\n        for name, values in self.headers.getAllRawHeaders():\n            for v in values:\n                yield name + b\": \" + v + b\"\\r\\n\"\n        yield b\"\\r\\n\"\n"),
     Silent("sync-generation-failure-explicit-failure", P, "        except BaseException:\n            _requestDeferred = fail()\n", "        except BaseException:\n            _requestDeferred = fail(Failure())\n"),
     Silent("generation-failure-aborts-before-recording-the-state", P, "                self._state = \"GENERATION_FAILED\"\n                self.transport.abortConnection()\n", "                self.transport.abortConnection()\n                self._state = \"GENERATION_FAILED\"\n"),
     Silent("validators-as-guard-clauses", P, "    if _istoken(method):\n        return method\n    raise ValueError(f\"Invalid method {method!r}\")", "    valid = _istoken(method)\n    if not valid:\n        raise ValueError(f\"Invalid method {method!r}\")\n    return method"),
